@@ -356,7 +356,12 @@ func readerTable(r *Report, read *ssa.Function) map[string]wireEntry {
 // R5: the four compact-list blocks of ut_pex agree with themselves.
 func c06R5(r *Report, read *ssa.Function) {
 	n := 0
-	for _, ci := range callsIn(read) {
+	// Read and the module-local helpers it reaches in package protocol (the blocks may live in a helper)
+	var cis []ssa.CallInstruction
+	for _, f := range localCallees(r.P, read, []string{"protocol"}) {
+		cis = append(cis, callsIn(f)...)
+	}
+	for _, ci := range cis {
 		c, ok := ci.(*ssa.Call)
 		if !ok || !isCallNamed(c, "pex", "ParseCompact") {
 			continue
